@@ -89,6 +89,19 @@ CLAIMED['C04'] = dict(
    note=NOTE + "; unicodedata.normalize is an arbitrary string function; callable/regex rules are assumed to consume >= 1 "
         "character; get_builtin_conversion_rules and the rule tables are not covered here (see C13 when claimed)")
 
+CLAIMED['C13'] = dict(
+   text="Second sentence decided: from the C04 step contract every chunk appended under 'replace'/'ignore'/'unihex' is a "
+        "copied ASCII character, a protected value of a built-in table, or an ASCII policy literal, and ASCII is closed "
+        "under concatenation (lemmas), with table obligations over all 1512 + 2233 rows of the two built-in tables "
+        "(every value ASCII; re-read from the sources each run); 'fail' raises exactly in the no-rule/not-pass-through "
+        "branch (C04 step relation + _do_unknown_char_fail always raises). First sentence, lexical part: the ten "
+        "LaTeX-active ASCII characters are keys of the default table, values are brace-balanced apart from escaped braces, "
+        "have no unescaped % # &, balanced $ and no \\begin/\\end, and no brace scheme leaves a dangling control word. "
+        "NOT decided: that the output parses in strict mode (needs every table value checked against the walker "
+        "database; no contract expresses that).",
+   ref="DESIGN.md sections 5 (C13) and 6",
+   note=NOTE + "; table rows are program data enumerated completely; HexstrN ('%X' formatting) is ASCII by A-LIB")
+
 NA = {
 }
 DEFAULT_NA = "check not built yet (work in progress; see DESIGN.md section 5 for the planned contracts)"
